@@ -496,9 +496,15 @@ func getRoundMessage(msg *Message, r round.Session) (round.Message, error) {
 	if err := cborutil.Unmarshal(msg.Data, content); err != nil {
 		return round.Message{}, fmt.Errorf("failed to unmarshal: %w", err)
 	}
+	to := msg.To
+	if to == "" && !msg.Broadcast {
+		// a direct message without a recipient is meant for everyone, so for this round it is addressed to us
+		// (rounds look up the recipient's key material by this field)
+		to = r.SelfID()
+	}
 	roundMsg := round.Message{
 		From:      msg.From,
-		To:        msg.To,
+		To:        to,
 		Content:   content,
 		Broadcast: msg.Broadcast,
 	}
